@@ -17,7 +17,7 @@ import (
 
 func main() {
 	reg := map[string]harness.Harness{
-		"C01": harness.External{Property: "C01", Ver: "c01-v1", M: plat.C01Meta(), Quick: 320, Thor: 16000, Bin: "plat.test", TestName: "TestJob", Classify: plat.ClassifyExitC01},
+		"C01": harness.External{Property: "C01", Ver: "c01-v1", M: plat.C01Meta(), Quick: 960, Thor: 30000, Bin: "plat.test", TestName: "TestJob", Classify: plat.ClassifyExitC01},
 		"C02": harness.External{Property: "C02", Ver: "c02-v2", M: plat.C02Meta(), Quick: 240, Thor: 12000, Bin: "plat.test", TestName: "TestJob", Classify: plat.ClassifyExit},
 		"C05": c05.H{Child: harness.External{Property: "C05", ChildKey: "C11", Ver: "c05-child", M: plat.C11Meta(), Bin: "plat.test", TestName: "TestJob", Classify: plat.ClassifyExit}},
 		"C08": harness.Multi{Property: "C08", Parts: []harness.Harness{
@@ -36,7 +36,7 @@ func main() {
 			c18.Ring{},
 			harness.External{Property: "C18", Ver: "c18-plat-v1", M: plat.C18Meta(), Quick: 300, Thor: 15000, Bin: "plat.test", TestName: "TestJob", Classify: plat.ClassifyExit},
 		}, Weights: []int{4, 1}, Quick: 1800, Thor: 120000},
-		"C19": c19.Ring{},
+		"C19": harness.Multi{Property: "C19", Parts: []harness.Harness{c19.Ring{}, c19.Handshake{}}, Weights: []int{2, 1}, Quick: 18000, Thor: 500000},
 		"C20": c20.H{},
 	}
 	harness.Main(reg)
